@@ -353,11 +353,11 @@ func TestC18(t *testing.T) {
 // ---- deadlines ----
 
 type c18Step struct {
-	Op  string        // set-read | set-write | set-both | idle | read | write | reset-read | reset-write | reset-both
-	How string        // past | future | zero (for set-*); zero | far (for reset-*)
+	Op  string // set-read | set-write | set-both | idle | read | write | reset-read | reset-write | reset-both
+	How string // past | future | zero (for set-*); zero | far (for reset-*)
 	// Quick (read / write steps): the call follows the previous step at once, without the clock moving in between
 	Quick bool
-	D   time.Duration // future offset / idle length
+	D     time.Duration // future offset / idle length
 }
 
 type c18DL struct {
